@@ -163,6 +163,15 @@ func genBinaryLiteral(r *hx.RNG) (text string, neg bool, m *big.Int, k int64, wa
 		nInt = len(ds)
 		cancel = kk
 	}
+	fives := int64(0)
+	if cancel == 0 && nFrac == 0 && r.Chance(15) {
+		// the mirror image: a mantissa c x 5^j scaled up by a p exponent of about +j - the value c x 10^j is short, the
+		// power of two that produces it is long
+		fives = int64(r.Range(30, 400))
+		m = new(big.Int).Mul(big.NewInt(int64(r.Range(1, 2000))), new(big.Int).Exp(big.NewInt(5), big.NewInt(fives), nil))
+		ds = []byte(m.Text(base))
+		nInt = len(ds)
+	}
 	var b strings.Builder
 	neg = r.Bool()
 	if neg {
@@ -193,7 +202,7 @@ func genBinaryLiteral(r *hx.RNG) (text string, neg bool, m *big.Int, k int64, wa
 		b.Write(ds[:nInt+nFrac])
 		k = 0
 	}
-	if cancel != 0 {
+	if cancel != 0 || fives != 0 {
 		hasP = true
 	}
 	if hasP {
@@ -201,7 +210,10 @@ func genBinaryLiteral(r *hx.RNG) (text string, neg bool, m *big.Int, k int64, wa
 		if cancel != 0 {
 			pexp = -cancel + int64(r.Range(-12, 12))
 		}
-		if r.Chance(20) && cancel == 0 {
+		if fives != 0 {
+			pexp = fives + int64(r.Range(-12, 12))
+		}
+		if r.Chance(20) && cancel == 0 && fives == 0 {
 			pexp = int64(r.Range(-3000, 3000))
 		}
 		fmt.Fprintf(&b, "%c%d", "pP"[r.Intn(2)], pexp)
